@@ -234,8 +234,10 @@ fn make_scen(keys: &[usize], t: u32, mut idx: u64) -> Scen {
 /// the exhaustive work list of a configuration: (subset mask, number of scenarios, total space)
 fn work(ctx: &Ctx, c: &Conf) -> Vec<(u8, u64, u64)> {
     let tb = c.tb();
-    let kmax = ctx.tier.sel(3, 5);
-    let cap: u64 = ctx.tier.sel(u64::MAX, 300_000);
+    let kmax = ctx.tier.sel(4, 5);
+    // subsets of up to 3 keys are enumerated completely in both tiers; larger ones are sampled with a
+    // fixed stride (seed-independent)
+    let cap: u64 = ctx.tier.sel(40_000, 300_000);
     let mut v = vec![];
     for m in 1u8..(1 << tb.nkeys) {
         let n = m.count_ones() as usize;
@@ -261,7 +263,7 @@ enum CaseKind {
 }
 
 fn n_random(ctx: &Ctx) -> u64 {
-    ctx.tier.sel(400, 4000)
+    ctx.tier.sel(1200, 6000)
 }
 
 fn layout(ctx: &Ctx) -> Vec<CaseKind> {
@@ -533,7 +535,7 @@ fn accounting(c: &Conf, ins: &[InEv], obs: &[Obs]) -> Result<Acct, (&'static str
 /// Groups: a press joins the pending group iff it arrives < T after the group's first press; a group
 /// fires as soon as its key set is a chord with no defined strict superset, otherwise at its
 /// timeout / the first release, as its chord or greedily decomposed in press order.
-fn v1_expected(c: &Conf, presses: &[(usize, u64)]) -> Vec<u8> {
+fn v1_expected(c: &Conf, presses: &[(usize, u64)], ambiguous: &mut bool) -> Vec<u8> {
     let tb = c.tb();
     let t = tb.t as u64;
     // all chords incl. the single-key ones: (mask, unit id)
@@ -559,6 +561,23 @@ fn v1_expected(c: &Conf, presses: &[(usize, u64)]) -> Vec<u8> {
             units.push(u);
             fired = true;
         }
+        // A group that does not start from idle starts when its first press is *processed*, which is up
+        // to `lag` ticks after it arrived (earlier keys are replayed one per tick). Whether a press
+        // near the end of such a group's window still joins is not determined by the statement.
+        if i > 0 {
+            let lag = i as u64 + 2;
+            if let Some(p) = presses.get(j) {
+                let d = p.1 - start;
+                if !fired && d + lag >= t && d < t + lag {
+                    *ambiguous = true;
+                }
+            }
+            // counting configurations: the virtual-key tap of an earlier chord's action is a queued
+            // non-chord press that legitimately ends a later group's chording
+            if c.counting && units.iter().any(|u| *u >= 10) {
+                *ambiguous = true;
+            }
+        }
         while !fired && j < presses.len() && presses[j].1 - start < t {
             active |= 1 << presses[j].0;
             order.push(presses[j].0);
@@ -566,6 +585,15 @@ fn v1_expected(c: &Conf, presses: &[(usize, u64)]) -> Vec<u8> {
             if let Some(u) = unamb(active) {
                 units.push(u);
                 fired = true;
+            }
+            if i > 0 && !fired {
+                let lag = i as u64 + 2;
+                if let Some(p) = presses.get(j) {
+                    let d = p.1 - start;
+                    if d + lag >= t && d < t + lag {
+                        *ambiguous = true;
+                    }
+                }
             }
         }
         if !fired {
@@ -666,8 +694,12 @@ fn judge_scen(c: &Conf, s: &Scen, obs: &[Obs], settled: bool) -> Verdict {
     };
     v.units = acct.units.clone();
     // a chord only fires if its participants arrived within its window
-    for (ci, _, sp, _) in &acct.fired {
-        let ok = if c.v2 { *sp <= tb.t as u64 } else { *sp < tb.t as u64 };
+    for (ci, _, sp, arr) in &acct.fired {
+        // exact from idle; a chord whose first participant arrived while earlier keys were still being
+        // processed has its window measured from when that press is processed (bounded lag)
+        let from_idle = arr.iter().map(|x| x.1).min() == Some(first_press);
+        let lag = if from_idle { 0 } else { R_DELAY as u64 + 2 * s.presses.len() as u64 };
+        let ok = if c.v2 { *sp <= tb.t as u64 + lag } else { *sp < tb.t as u64 + lag };
         if !ok {
             v.sig = Some((format!("C09:{ver}:fired-outside-window"), format!("{} fired although its participants' presses span {} ticks (timeout {})", unit_name(10 + *ci as u8, tb), sp, tb.t)));
             return v;
@@ -705,7 +737,7 @@ fn judge_scen(c: &Conf, s: &Scen, obs: &[Obs], settled: bool) -> Verdict {
             let lo = (*at).max(t_rule + 1);
             // the counting variant queues the virtual key's press and release (and its macro) ahead of the
             // chord's release: three more queue slots
-            let slack = (R_DELAY + s.presses.len() as u32 + 4 + if c.counting { 3 } else { 0 }) as u64;
+            let slack = (R_DELAY * (acct.fired.len().max(1) as u32) + 2 * s.presses.len() as u32 + 2 + if c.counting { 3 } else { 0 }) as u64;
             let hi = (*at).max(t_rule) + slack;
             if up < lo {
                 v.sig = Some((format!("C09:{ver}:chord-released-early"), format!("{} released in tick {up}, before the release rule allows ({})", unit_name(10 + *ci as u8, tb), if c.first_release() { "first participant release" } else { "all participants released" })));
@@ -723,9 +755,12 @@ fn judge_scen(c: &Conf, s: &Scen, obs: &[Obs], settled: bool) -> Verdict {
     // v1 decomposition
     if !c.v2 {
         let pr: Vec<(usize, u64)> = ins.iter().filter(|e| e.press).map(|e| (e.key, e.at)).collect();
-        let exp = v1_expected(c, &pr);
+        let mut ambiguous = false;
+        let exp = v1_expected(c, &pr, &mut ambiguous);
         v.expected = exp.iter().map(|u| unit_name(*u, tb)).collect::<Vec<_>>().join(", ");
-        if exp != acct.units {
+        if ambiguous {
+            v.class = "v1-late-group-boundary-undetermined";
+        } else if exp != acct.units {
             v.sig = Some((
                 format!("C09:v1:decomposition"),
                 format!("expected [{}], observed [{}]", v.expected, acct.units.iter().map(|u| unit_name(*u, tb)).collect::<Vec<_>>().join(", ")),
@@ -1075,14 +1110,15 @@ impl Check for C09Check {
         out
     }
     fn rule(&self) -> String {
-        "case = one configuration (8 chord tables over 2-5 participating keys: single pair, sub-chord + superset, overlapping pairs with an undefined superset, lone triple, two overlapping triples, pairs + quad, chain of 2/3/4, five-key chord with sub-chords; each as a defchords group with single-key chords and as defchordsv2 with all-released / first-release, on the base layer and on a layer where every other chord is disabled; participants written in non-sorted order) and a chunk of its scenario space: for every non-empty subset of the participating keys (quick: up to 3 keys, complete; thorough: up to 5 keys, spaces above 300 000 sampled with a fixed stride) every permutation of press order x every combination of inter-press gaps from {0,1,T-1,T,T+1} x every permutation of release order x hold {1,T+3} x inter-release gap {0,2}; plus random physically consistent histories mixing chord keys, a non-chord key and an unrelated key (accounting oracle only); plus one parser case (permuted duplicate key sets must be rejected). Non-trivial = scenario ran and was judged; distinct = (configuration, pressed subset, scenario class, sequence of fired units).".into()
+        "case = one configuration (8 chord tables over 2-5 participating keys: single pair, sub-chord + superset, overlapping pairs with an undefined superset, lone triple, two overlapping triples, pairs + quad, chain of 2/3/4, five-key chord with sub-chords; each as a defchords group with single-key chords and as defchordsv2 with all-released / first-release, on the base layer and on a layer where every other chord is disabled; participants written in non-sorted order) and a chunk of its scenario space: for every non-empty subset of the participating keys (subsets of up to 3 keys complete in both tiers; quick: 4-key subsets sampled, 40 000 of 288 000 scenarios each, with a fixed stride; thorough: 4-key subsets complete, 5-key subsets 300 000 of 36 M with a fixed stride; the sampling does not depend on the seed) every permutation of press order x every combination of inter-press gaps from {0,1,T-1,T,T+1} x every permutation of release order x hold {1,T+3} x inter-release gap {0,2}; plus random physically consistent histories mixing chord keys, a non-chord key and an unrelated key (accounting oracle only); plus one parser case (permuted duplicate key sets must be rejected). Non-trivial = scenario ran and was judged; distinct = (configuration, pressed subset, scenario class, sequence of fired units).".into()
     }
     fn assumptions(&self) -> Vec<String> {
         vec![
             "all chords of a table share one timeout; scenarios start from idle with chord processing enabled (after the chords-v2-min-idle window), so no scenario straddles that window at its start; presses that fall into the window opened by an earlier non-chord activation of the same scenario are only judged by the accounting oracle".into(),
             "window convention as measured (appendix A): v1 participants must arrive < T after the first, v2 <= T".into(),
-            "release slack: rapid-event-delay + number of keys + 4 ticks (+3 when the chord action also taps a counting virtual key) after the release rule is met".into(),
+            "release slack: rapid-event-delay per fired chord + 2 x number of keys + 2 ticks (+3 when the chord action also taps a counting virtual key) after the release rule is met".into(),
             "v1 tables define a single-key chord for every participating key, so a vanished key is always a swallowed key; the v1 release rule is only judged for undecomposed chords (the guide calls the other cases implementation-defined)".into(),
+            "v1: a group of presses that does not start from idle starts when its first press is processed (earlier keys are replayed one per tick); scenarios where a press falls within that lag of such a group's window end, and counting configurations where an earlier chord already fired (its virtual-key tap is a queued non-chord press), are judged by accounting only; for the same reason a chord whose first participant did not arrive at idle may fire with a span of up to T + rapid-event-delay + 2 x keys".into(),
             "v2 negative scenarios are judged by accounting only (which sub-chords fire depends on press order by design)".into(),
             "many scenarios run on one kanata instance separated by idle periods; a mismatch is re-judged on a fresh instance".into(),
         ]
